@@ -37,16 +37,19 @@ def parse_scn(text):
 def check(impl, scn):
     queues, hops, routes, echo = parse_scn(scn)
     f9, f10 = [], []
-    stats = dict(arrivals=0, departures=0, drops=0, at_capacity=0, reentrant=0, coincide=0)
+    stats = dict(arrivals=0, departures=0, drops=0, at_capacity=0, reentrant=0, coincide=0,
+                 rounded_departures=0, intact_compared=0, intact_from_compared=0)
     if not routes: return f9, f10, stats
     route = routes[0]
     # observation points: for every queue in the route: the probe just before / after
     before, after = {}, {}      # probe name -> queue it feeds / queue it follows
+    rewritten = set()           # queues with a NAT between the observing probe and the queue: `from` legitimately differs
     for i, h in enumerate(route):
         if hops.get(h) == "queue":
             j = i - 1
             while j >= 0 and hops.get(route[j]) in ("nat", "dropper"): j -= 1
             if j >= 0 and hops.get(route[j]) == "probe": before[route[j]] = h
+            if any(hops.get(x) == "nat" for x in route[max(j, 0):i]): rewritten.add(h)
             if i + 1 < len(route) and hops.get(route[i + 1]) == "probe": after[route[i + 1]] = h
     last_probe = None
     for h in route:
@@ -61,14 +64,29 @@ def check(impl, scn):
     prev_line_was_D = False
     ended_quiescent = False
 
-    def arrive(q, t, seq, size, ty, ln, ovh, hascb):
+    def altered(q, rec, d, forwarded):
+        """fields of the packet as it left the queue (d: forwarded, or handed to its drop callback) that
+        differ from the packet that arrived: payload digest, byte counter, error code, sender endpoint
+        (unless a NAT sits between the observing probe and the queue), presence of the drop callback (a
+        forwarded packet still carries it; the callback itself receives the packet without it)"""
+        if rec.get("obs") is None: return []
+        o = rec["obs"]; bad = []
+        stats["intact_compared"] += 1
+        keys = ["pl", "bc", "ec"] + (["drop"] if forwarded else [])
+        if q not in rewritten:
+            keys.append("from"); stats["intact_from_compared"] += 1
+        for k in keys:
+            if k in o and k in d and o[k] != d[k]: bad.append("%s %s -> %s" % (k, o[k], d[k]))
+        return bad
+
+    def arrive(q, t, seq, size, ty, ln, ovh, hascb, obs=None):
         nonlocal last_arr
         c = queues[q]; s = st[q]
         droppable = ty in DROPPABLE
         exp_drop = droppable and c["cap"] > 0 and s["held"] + size > c["cap"]
         if c["cap"] > 0 and droppable and s["held"] + size == c["cap"]: stats["at_capacity"] += 1
         rec = dict(t=t, seq=seq, size=size, ty=ty, len=ln, ovh=ovh, cb=hascb, exp_drop=exp_drop, obs_drop=False,
-                   held=s["held"])
+                   held=s["held"], obs=obs)
         stats["arrivals"] += 1
         if hascb:
             # decided when the next line is (or is not) its drop callback
@@ -114,6 +132,9 @@ def check(impl, scn):
                 f10.append(("drop_reported_once_at_once", "drop of seq=%d reported at t=%d, arrived at %d" % (seq, t, rec["t"])))
             if int(d["len"]) != rec["len"] or d["type"] != rec["ty"] or int(d["ovh"]) != rec["ovh"]:
                 f10.append(("drop_intact", "dropped packet seq=%d handed back altered" % seq))
+            else:
+                bad = altered(q, rec, d, False)
+                if bad: f10.append(("drop_intact", "dropped packet seq=%d handed back altered: %s" % (seq, ", ".join(bad))))
             if not rec["exp_drop"]:
                 why = "undroppable type" if rec["ty"] not in DROPPABLE else ("capacity 0 = unlimited" if queues[q]["cap"] == 0 else "it fits: holds %d + %d <= capacity %d" % (rec["held"], rec["size"], queues[q]["cap"]))
                 f10.append(("drop_iff", "queue %s dropped packet seq=%d (%s) at t=%d although %s" % (q, seq, rec["ty"], t, why)))
@@ -155,15 +176,19 @@ def check(impl, scn):
                         rec = s["fifo"].pop(idx); s["held"] -= rec["size"]
                         if (ln_, ovh, ty) != (rec["len"], rec["ovh"], rec["ty"]):
                             f10.append(("conservation", "queue %s altered packet seq=%d in transit" % (q, seq)))
+                        else:
+                            bad = altered(q, rec, d, True)
+                            if bad: f10.append(("conservation", "queue %s altered packet seq=%d in transit: %s" % (q, seq, ", ".join(bad))))
                         ready = rec["t"] + c["lat"]
                         start = ready if s["prev"] is None else max(ready, s["prev"])
                         ser = Fraction(rec["size"] * 10**9, c["bw"]) if c["bw"] else Fraction(0)
+                        if ser.denominator != 1: stats["rounded_departures"] += 1
                         if abs(Fraction(t) - (start + ser)) > 1:
                             f9.append(("recurrence", "queue %s (bw=%d lat=%d): seq=%d (%d bytes) arrived %d, previous departure %s, left at %d; max(prev, arrive+latency)+size/rate = %s" % (q, c["bw"], c["lat"], seq, rec["size"], rec["t"], s["prev"], t, float(start + ser))))
                         if s["prev"] is not None and rec["t"] == s["prev"]: stats["coincide"] += 1
                         s["prev"] = t
             if name in before:
-                arrive(before[name], t, seq, size, ty, ln_, ovh, d.get("drop") == "1")
+                arrive(before[name], t, seq, size, ty, ln_, ovh, d.get("drop") == "1", obs=d)
             if echo and name == last_probe and seq < 100000:
                 # the echo sink behind this probe answers at once through its own route
                 settle()
@@ -183,3 +208,132 @@ def check(impl, scn):
             if s["fifo"]:
                 f10.append(("conservation", "queue %s never forwarded seq=%s (silently lost, or the link went idle with a backlog)" % (q, [r["seq"] for r in s["fifo"]][:5])))
     return f9, f10, stats
+
+
+# ---- real traffic: queues of whole-network scenarios observed by a probe on either side -----------
+
+def add_link_probes(scn):
+    """Rewrite a network scenario (gen/net_gen.py shape) so that every queue sits between two probes:
+    `route out ip … qoK …` -> `… yoK qoK zoK …`, `route in ip qiK piK` -> `yiK qiK piK`,
+    `route net X net` -> `route net X yn net zn`. The first / last hops stay what they were."""
+    lines = scn.split("\n")
+    kinds = {}
+    for ln in lines:
+        tk = ln.split()
+        if len(tk) >= 3 and tk[0] == "hop": kinds[tk[1]] = tk[2]
+    out, new, seen = [], [], set()
+    for ln in lines:
+        tk = ln.split()
+        if len(tk) >= 4 and tk[0] == "route" and tk[1] in ("out", "in", "net"):
+            hs = tk[3:]; r = []
+            for i, h in enumerate(hs):
+                if kinds.get(h) == "queue":
+                    if not (i > 0 and kinds.get(hs[i - 1]) == "probe"):
+                        p = "y" + h; r.append(p)
+                        if p not in seen: seen.add(p); new.append("hop %s probe" % p)
+                    r.append(h)
+                    if not (i + 1 < len(hs) and kinds.get(hs[i + 1]) == "probe"):
+                        p = "z" + h; r.append(p)
+                        if p not in seen: seen.add(p); new.append("hop %s probe" % p)
+                else:
+                    r.append(h)
+            ln = " ".join(tk[:3] + r)
+        out.append(ln)
+    # declarations first (right after the `== id` line)
+    return "\n".join(out[:1] + new + out[1:])
+
+
+def check_links(impl, scn):
+    """C10 on real socket traffic (TCP handshakes, segments, ACKs, retransmissions, resets, UDP datagrams):
+    for every queue that has a probe immediately before and after it on every route it lies on, held bytes are
+    reconstructed from the two probes and
+      * a droppable packet (syn / payload) that arrives when held + size > capacity > 0 is never forwarded, any
+        other packet is (drop_iff / conservation; a drop is not announced in the trace here: TCP's callback
+        notifies the socket, UDP has none),
+      * whatever leaves the queue is, field for field (type, seq, len, overhead, sender, error code, byte
+        counter, payload digest, callback presence), a packet that entered it and has not left yet (conservation:
+        never duplicated, altered or invented),
+      * after a run() that returned with nothing stopped, no accepted packet is still inside (never silently lost).
+    Returns (c10_failures, stats)."""
+    f10 = []
+    stats = dict(link_queues=0, link_arrivals=0, link_departures=0, link_drops=0, link_tcp_drops=0, link_udp_drops=0,
+                 link_nonzero_bc=0, link_ec_packets=0, link_undroppable_over_capacity=0)
+    kinds, qcfg, routes = {}, {}, []
+    for ln in scn.split("\n"):
+        tk = ln.split()
+        if len(tk) >= 3 and tk[0] == "hop":
+            kinds[tk[1]] = tk[2]
+            if tk[2] == "queue":
+                d = _kv(tk[3:]); qcfg[tk[1]] = dict(cap=int(d.get("cap", 0)))
+        elif len(tk) >= 4 and tk[0] == "route":
+            routes.append(tk[3:])
+    if any(ln.split()[2:3] in (["stop"], ["throw"]) for ln in scn.split("\n") if ln.startswith("do ")):
+        return f10, stats
+    before, after, bad = {}, {}, set()
+    for hs in routes:
+        for i, h in enumerate(hs):
+            if kinds.get(h) != "queue": continue
+            if i > 0 and kinds.get(hs[i - 1]) == "probe" and i + 1 < len(hs) and kinds.get(hs[i + 1]) == "probe":
+                before[hs[i - 1]] = h; after[hs[i + 1]] = h
+            else:
+                bad.add(h)
+    # a probe must observe one queue side only, and an observed queue must be observed on all its routes
+    for p in list(before):
+        if before[p] in bad or (p in after and after[p] in bad): bad.add(before[p])
+    before = {p: q for p, q in before.items() if q not in bad}
+    after = {p: q for p, q in after.items() if q not in bad}
+    st = {q: dict(fifo=[], held=0, dropped={}) for q in set(before.values())}
+    stats["link_queues"] = len(st)
+    KEYS = ("type", "seq", "len", "ovh", "from", "ec", "bc", "drop", "pl")
+    quiescent = False
+    for ln in impl:
+        tk = ln.split()
+        if not tk: continue
+        if tk[0] == "R":
+            quiescent = "throw" not in ln
+            continue
+        if tk[0] == "X":
+            return f10, stats
+        if tk[0] != "P" or len(tk) < 3: continue
+        quiescent = False
+        d = _kv(tk[2:])
+        try:
+            key = tuple(d[k] for k in KEYS); size = int(d["len"]) + int(d["ovh"]); t = int(d["t"])
+        except (KeyError, ValueError):
+            continue
+        name = tk[1]
+        if name in after:
+            q = after[name]; s = st[q]
+            stats["link_departures"] += 1
+            idx = next((i for i, r in enumerate(s["fifo"]) if r[0] == key), None)
+            if idx is not None:
+                s["fifo"].pop(idx); s["held"] -= size
+            elif s["dropped"].get(key, 0) > 0:
+                s["dropped"][key] -= 1
+                f10.append(("drop_iff", "queue %s forwarded %s seq=%s (%d bytes) at t=%d although it overflowed the capacity %d on arrival" % (q, d["type"], d["seq"], size, t, qcfg[q]["cap"])))
+            else:
+                near = next((r for r in s["fifo"] if r[0][0] == key[0] and r[0][1] == key[1]), None)
+                if near is not None:
+                    diff = ", ".join("%s %s -> %s" % (k, a, b) for k, a, b in zip(KEYS, near[0], key) if a != b)
+                    f10.append(("conservation", "queue %s altered %s seq=%s in transit: %s" % (q, d["type"], d["seq"], diff)))
+                    s["fifo"].remove(near); s["held"] -= near[1]
+                else:
+                    f10.append(("conservation", "queue %s forwarded %s seq=%s at t=%d which it does not hold (duplicate or invented packet)" % (q, d["type"], d["seq"], t)))
+        if name in before:
+            q = before[name]; s = st[q]; cap = qcfg[q]["cap"]
+            stats["link_arrivals"] += 1
+            if d["bc"] != "0": stats["link_nonzero_bc"] += 1
+            if d["ec"] != "ok": stats["link_ec_packets"] += 1
+            over = cap > 0 and s["held"] + size > cap
+            if over and d["type"] in DROPPABLE:
+                s["dropped"][key] = s["dropped"].get(key, 0) + 1
+                stats["link_drops"] += 1
+                stats["link_tcp_drops" if d["drop"] == "1" else "link_udp_drops"] += 1
+            else:
+                if over: stats["link_undroppable_over_capacity"] += 1
+                s["fifo"].append((key, size, t)); s["held"] += size
+    if quiescent:
+        for q, s in sorted(st.items()):
+            if s["fifo"]:
+                f10.append(("conservation", "queue %s never forwarded %s (silently lost)" % (q, ["%s seq=%s t=%d" % (r[0][0], r[0][1], r[2]) for r in s["fifo"]][:4])))
+    return f10, stats
